@@ -310,7 +310,7 @@ SPECS['C12'] = dict(
     level_note='what echsx does with --no-run (the report itself) is echsx code and covered by reading only; N=0 is outside the stated domain',
     rule=('schedule = 1..4 tasks x up to 80 (thorough 400) ops {ADV 1..12 s with lateness 1 ms..7.5 s, EXITN k, EXITALL, DUMP}; non-trivial = some task reached exactly N running executions and had an occurrence '
           'refused; classes: limit-hit, runs-again-after-refusal, other-task-started-while-one-at-limit, N buckets; distinct = script text'),
-    assumptions=['a replaced task keeps the running executions of its previous version in its count (not exercised: C12 schedules do not replace tasks)'],
+    assumptions=['a task submitted again keeps the running executions of its previous version in its count (1 schedule in 4 re-submits tasks unchanged while executions are running)'],
     quick=dict(workers=16, cases=600, size=100, timeout=1500, opts={'maxops': 80}),
     thorough=dict(workers=16, cases=6000, size=100, timeout=7200, opts={'maxops': 400}),
 )
